@@ -45,7 +45,8 @@ ASSUMPTIONS = [
 ]
 FLOORS = {"base_unaligned": 0.15, "multi_region": 0.30, "edge_inside": 0.15, "byte_swap": 0.03, "cover:partial": 0.10, "cover:full": 0.10,
           "cover:none": 0.05, "engine:otfad": 0.2, "engine:iee": 0.15, "engine:bee": 0.15, "via:config": 0.08, "touching_regions": 0.10,
-          "len_nonaligned": 0.15, "scramble": 0.03}
+          "len_nonaligned": 0.15, "scramble": 0.03, "cut_unaligned": 0.04, "iee_bypass": 0.03, "ctr_wrap": 0.008, "last_byte_at_excl_end": 0.001,
+          "nocrash_only": 0.01, "keyblob_generated": 0.01}
 
 FIX = os.path.join(VERIF_DIR, "fixtures", "c13")
 
@@ -160,9 +161,13 @@ def _geometry(gran_per_unit: int, max_units: int, maxlen: int, unit: int = 1024)
         st.tuples(st.integers(0, max_units), st.sampled_from([1, g // 2, g - 1])).map(lambda t: t[0] * g + t[1] % g),
         anchor(-1), anchor(-2), anchor(-3), anchor(-4),
     )
-    length = st.one_of(st.integers(1, maxlen), st.integers(1, maxlen // 1024).map(lambda k: k * 1024), st.integers(1, maxlen // 16).map(lambda k: k * 16),
-                       st.integers(1, 64), st.integers(2 * unit, maxlen), st.integers(2 * unit + 1, maxlen), st.integers(unit + 1, 3 * unit),
-                       st.integers(unit, 4 * unit), st.integers(3 * unit, maxlen))
+    # Hypothesis draws wide integer ranges with a strong bias to their simplest (small) values: mix in ranges whose simplest value is large
+    spread = st.integers(1, maxlen)
+    large = st.integers(0, maxlen - 1).map(lambda v: maxlen - v)  # biased to the upper end
+    middle = st.integers(0, maxlen // 2).map(lambda v: maxlen // 4 + v)
+    length = st.one_of(spread, spread.map(lambda n: max(16, n & ~15)), spread.map(lambda n: max(unit, n - n % unit)), st.integers(1, 64),
+                       st.integers(unit + 1, 3 * unit), st.tuples(st.integers(1, 8), st.sampled_from([-16, -1, 0, 1, 16])).map(lambda t: t[0] * unit + t[1]),
+                       large, middle, middle.map(lambda n: n & ~15))
     snap = st.one_of(st.none(), st.none(), st.none(),
                      st.fixed_dictionaries({"edge": st.integers(0, 7), "extra": st.sampled_from([0, 1, 1, 15, 16, 17, 33, -1, -16, 1024, 1040, -1024, 4096, 4097])}))
     return {"base": base, "len": length, "snap": snap, "cuts": st.lists(st.integers(0, 1 << 16), max_size=3), "seed": st.binary(min_size=8, max_size=8)}
@@ -173,10 +178,10 @@ def _otfad_case(maxlen: int):
     blob = {"key": st.binary(min_size=16, max_size=16), "ctr": st.binary(min_size=8, max_size=8),
             "flags": st.sampled_from([3, 3, 3, 3, 3, 7, 7, 7, 1, 2, 0, 5, 6]), "end": st.sampled_from(["excl", "incl"])}
     return st.fixed_dictionaries({
-        "origin": st.sampled_from(_ORIGINS_1K), "blobs": _regions(blob, 3, 6), "swap": st.sampled_from([False, False, True]),
+        "origin": st.sampled_from(_ORIGINS_1K), "blobs": _regions(blob, 3, max(6, maxlen // 4096)), "swap": st.sampled_from([False, False, True]),
         "kek": st.binary(min_size=16, max_size=16),
         "scr": st.one_of(st.none(), st.fixed_dictionaries({"mask": st.integers(0, 0xFFFFFFFF), "align": st.integers(0, 255), "rev": st.booleans()})),
-        "swap_cnt": st.sampled_from([0, 0, 2, 4, 8, 16]), **_geometry(64, 20, maxlen),
+        "swap_cnt": st.sampled_from([0, 0, 2, 4, 8, 16]), **_geometry(64, max(20, maxlen // 1024), maxlen),
     })
 
 
@@ -230,8 +235,10 @@ def run_otfad(case, o: Oracle) -> None:
     _classify(o, base, n, spans, 1024, active)
     if swap:
         o.label("byte_swap")
-    for b in case["blobs"]:
+    for b, (s, e) in zip(case["blobs"], spans):
         o.label("flags:%d" % b["flags"], "end:" + b["end"])
+        if b["end"] == "excl" and base + n - 1 == e:
+            o.label("last_byte_at_excl_end")
     o.nontrivial(bool(base % 1024) or len(spans) >= 2 or "edge_inside" in o.labels or swap)
 
     # (a) the engine model turns the ciphertext back into the image
@@ -242,7 +249,10 @@ def run_otfad(case, o: Oracle) -> None:
         if o.check("otfad_decrypt", len(ct) in (n, _al16(n)), "length", "image %d bytes, ciphertext %d bytes" % (n, len(ct))):
             _compare(o, "otfad_decrypt", F.otfad_decrypt(ctxs, base, ct, swap), image, base, active)
         # (b) pieces at their addresses
-        _split_check(o, "otfad_split", ct, image, _cuts(case, n, 16), lambda off, piece: otfad.encrypt_image(piece, base + off, swap))
+        cuts = _cuts(case, n, 16)
+        if any((base + c) % 1024 for c in cuts):
+            o.label("cut_unaligned")
+        _split_check(o, "otfad_split", ct, image, cuts, lambda off, piece: otfad.encrypt_image(piece, base + off, swap))
 
     # (a') a single key blob used directly on data that lie inside it (documented use of KeyBlob.encrypt_image)
     for kb, ctx, (s, e) in zip(otfad._key_blobs, ctxs, spans):
@@ -411,14 +421,15 @@ def _iee_region(modes):
 
 
 def _iee_case(maxlen: int):
-    geo = _geometry(1, 14, maxlen, 4096)
+    geo = _geometry(1, max(14, maxlen // 4096), maxlen, 4096)
+    pages = max(3, maxlen // 16384)
     common = {"origin": st.sampled_from([0x0, 0x04000000, 0x30000000, 0x7FFFE000, 0xFFF00000]), "ibkek1": st.binary(min_size=32, max_size=32),
               "ibkek2": st.binary(min_size=32, max_size=32), "kb_page": st.integers(0, 0xFFFF), **geo}
     return st.one_of(
-        st.fixed_dictionaries({"regions": _regions(_iee_region(_IEE_MODELLED), 2, 3), **common}),
-        st.fixed_dictionaries({"regions": _regions(_iee_region(_IEE_MODELLED), 2, 3), **common}),
-        st.fixed_dictionaries({"regions": _regions(_iee_region(_IEE_MODELLED), 2, 3), **common}),
-        st.fixed_dictionaries({"regions": _regions(_iee_region(_IEE_MODELLED + _IEE_UNMODELLED * 2), 2, 3), **common}),
+        st.fixed_dictionaries({"regions": _regions(_iee_region(_IEE_MODELLED), 2, pages), **common}),
+        st.fixed_dictionaries({"regions": _regions(_iee_region(_IEE_MODELLED), 2, pages), **common}),
+        st.fixed_dictionaries({"regions": _regions(_iee_region(_IEE_MODELLED), 2, pages), **common}),
+        st.fixed_dictionaries({"regions": _regions(_iee_region(_IEE_MODELLED + _IEE_UNMODELLED * 2), 2, pages), **common}),
     )
 
 
@@ -478,6 +489,8 @@ def _iee_labels(o: Oracle, case) -> bool:
         o.label("mode:" + r["mode"])
         if r["mode"] in _IEE_UNMODELLED:
             modelled = False
+        if r["mode"].startswith("bypass"):
+            o.label("iee_bypass")
         if r.get("wrap") and r["mode"].startswith("ctr1") or r.get("wrap") and r["mode"].startswith("ctr2"):
             o.label("ctr_wrap")
     if not modelled:
@@ -619,9 +632,9 @@ def _bee_case(maxlen: int):
                                  "kib_iv": st.binary(min_size=16, max_size=16), "lock": st.sampled_from([0, 0, 1, 0xFFFFFFFF])})
     return st.fixed_dictionaries({
         "origin": st.sampled_from([0x0, 0x60000000, 0x70000000, 0x7FFFFC00, 0xFFF00000]),
-        "facs": st.lists(st.fixed_dictionaries({"gap": st.integers(0, 3), "n": st.integers(1, 6), "eng": st.integers(0, 1), **fac}), min_size=1, max_size=4),
+        "facs": st.lists(st.fixed_dictionaries({"gap": st.integers(0, 3), "n": st.integers(1, max(6, maxlen // 4096)), "eng": st.integers(0, 1), **fac}), min_size=1, max_size=4),
         "engines": st.lists(eng, min_size=2, max_size=2), "via": st.sampled_from(["api", "api", "config"]), "sel": st.sampled_from(["engine0", "engine1", "both", "both"]),
-        **_geometry(64, 20, maxlen),
+        **_geometry(64, max(20, maxlen // 1024), maxlen),
     })
 
 
@@ -728,7 +741,10 @@ def run_bee(case, o: Oracle, work: str) -> None:
     # (b) pieces
     from spsdk.image.bee import BeeNxp as _BeeNxp
 
-    _split_check(o, "bee_split", ct, image, _cuts(case, n, 16), lambda off, piece: _BeeNxp(bee.headers, piece, base + off).export_image())
+    cuts = _cuts(case, n, 16)
+    if any((base + c) % 1024 for c in cuts):
+        o.label("cut_unaligned")
+    _split_check(o, "bee_split", ct, image, cuts, lambda off, piece: _BeeNxp(bee.headers, piece, base + off).export_image())
 
 
 # ===================================================================================== calibration
@@ -778,9 +794,9 @@ def parts(ctx):
         return strategy(maxlen).map(lambda c: dict(c, maxlen=maxlen))
 
     return [
-        HypPart("otfad", sized(_otfad_case, big), run_otfad, {"quick": 3000, "thorough": 60000}),
-        HypPart("otfad_cfg", sized(_otfad_cfg_case, 4096 if ctx.quick else 65536), lambda c, o: run_otfad_cfg(c, o, work), {"quick": 800, "thorough": 16000}),
-        HypPart("iee", sized(_iee_case, big), run_iee, {"quick": 2500, "thorough": 50000}),
-        HypPart("iee_cfg", sized(_iee_cfg_case, 8192 if ctx.quick else 65536), lambda c, o: run_iee_cfg(c, o, work), {"quick": 700, "thorough": 14000}),
-        HypPart("bee", sized(_bee_case, big), lambda c, o: run_bee(c, o, work), {"quick": 2500, "thorough": 50000}),
+        HypPart("otfad", sized(_otfad_case, big), run_otfad, {"quick": 5000, "thorough": 100000}),
+        HypPart("otfad_cfg", sized(_otfad_cfg_case, 4096 if ctx.quick else 65536), lambda c, o: run_otfad_cfg(c, o, work), {"quick": 1200, "thorough": 24000}),
+        HypPart("iee", sized(_iee_case, big), run_iee, {"quick": 4000, "thorough": 80000}),
+        HypPart("iee_cfg", sized(_iee_cfg_case, 8192 if ctx.quick else 65536), lambda c, o: run_iee_cfg(c, o, work), {"quick": 1000, "thorough": 20000}),
+        HypPart("bee", sized(_bee_case, big), lambda c, o: run_bee(c, o, work), {"quick": 4000, "thorough": 80000}),
     ]
